@@ -18,6 +18,7 @@ import (
 	"runtime/debug"
 	"sort"
 	"strconv"
+	"strings"
 	"sync"
 	"testing"
 	"time"
@@ -414,11 +415,25 @@ func (c Check[C]) Run(t *testing.T) {
 			st.observe(Obs{Nontrivial: true, Sample: cs})
 		}
 		if err != nil {
+			inconclusiveIfHarness(c.key(), err)
 			st.markFailed()
 			p := saveReplay(c.Prop, c.key(), cs, err)
 			rt.Fatalf("property %s violated (%s): %v\nreplay=%s", c.Prop, c.key(), err, p)
 		}
 	})
+}
+
+// inconclusiveIfHarness: an error of the machinery itself (a scratch file that cannot be
+// written, a generated program that does not build, a time limit hit on a machine that is too
+// busy) says nothing about the property. It ends the process with status 3 and without a
+// replay file, which the driver reports as INCONCLUSIVE (exit 2), never as a violation.
+func inconclusiveIfHarness(key string, err error) {
+	if err == nil || !strings.Contains(err.Error(), "HARNESS:") {
+		return
+	}
+	fmt.Printf("HARNESS-ERROR in %s (inconclusive, not a violation): %v\n", key, err)
+	writeAllStats()
+	os.Exit(3)
 }
 
 // polluter, when set (pollute_test.go), performs unrelated library calls between cases.
@@ -428,6 +443,7 @@ var polluter func(n int)
 func (c Check[C]) Each(t *testing.T, cs C) bool {
 	err := guard(func() error { return c.Oracle(cs) })
 	if err != nil {
+		inconclusiveIfHarness(c.key(), err)
 		st := statsFor(c.Prop)
 		st.markFailed()
 		p := saveReplay(c.Prop, c.key(), cs, err)
